@@ -83,12 +83,14 @@ func (r *Run) invoke(st *State, fr *Frame, cc *ssa.CallCommon, fnv Val, args []V
 func (r *Run) unknownCall(st *State, fr *Frame, f T, args []Val, sig *types.Signature, dst ssa.Value, in ssa.Instruction) []*State {
 	e := r.e
 	e.safety(st, fr, in, "nilfunc", Not(Eq(f, NilOf(SFn))), "call of non-nil function value at "+e.posOf(in))
+	r.atCall(st, fr, "dynamic", args, sig, in)
 	e.note("user callbacks are arbitrary: results unconstrained, may panic; assumed not to re-enter the library object")
-	st.Counters["calls:"+f.S] = App(SInt, "+", r.counter(st, "calls:"+f.S), IntLit(1))
-	key := fmt.Sprintf("callargs:%s", f.S)
-	_ = key
+	e.regionWrite1(st, "cnt.calls", SInt, f, App(SInt, "+", e.regionRead(st, "cnt.calls", []Sort{SFn}, SInt, f), IntLit(1)))
 	r.recordCall(st, f.S, args)
 	res := r.freshResults(st, sig, "cb")
+	for i, v := range res {
+		st.Ghost[fmt.Sprintf("res:%s:%d", f.S, i)] = v
+	}
 	var forks []*State
 	if r.panicMatters(st) {
 		p := st.clone()
@@ -138,8 +140,46 @@ func (r *Run) depth(st *State, fn *ssa.Function) (int, bool) {
 	return len(st.Frames), rec
 }
 
+// atCall: caller-side assertions about one call site (`at-call callee#n label : expr`, args as arg0..).
+func (r *Run) atCall(st *State, fr *Frame, callee string, args []Val, sig *types.Signature, in ssa.Instruction) {
+	e := r.e
+	blk := e.cs.Funcs[e.fnName[fr.Fn]]
+	if blk == nil {
+		return
+	}
+	cls := blk.All("at-call")
+	if len(cls) == 0 {
+		return
+	}
+	ord := e.callOrdinal(fr.Fn, in, callee)
+	site := fmt.Sprintf("%s#%d", callee, ord)
+	for _, cl := range cls {
+		if len(cl.Words) < 1 || cl.Words[0] != site {
+			continue
+		}
+		extra := map[string]SV{}
+		for i, a := range args {
+			sv := SV{V: a}
+			if sig != nil {
+				k := i
+				if sig.Recv() != nil && len(args) > sig.Params().Len() {
+					k = i - 1
+				}
+				if k >= 0 && k < sig.Params().Len() {
+					sv.T = sig.Params().At(k).Type()
+				}
+			}
+			extra[fmt.Sprintf("arg%d", i)] = sv
+		}
+		e.obligationClause(st, fr, fmt.Sprintf("%s/at-call@%s:%s", e.fnName[fr.Fn], site, cl.Label()), cl, extra)
+	}
+}
+
 func (r *Run) callFunction(st *State, fr *Frame, fn *ssa.Function, binds []Val, args []Val, dst ssa.Value, in ssa.Instruction, cc *ssa.CallCommon) []*State {
 	e := r.e
+	if n, ok := e.fnName[fn]; ok {
+		r.atCall(st, fr, n, args, fn.Signature, in)
+	}
 	if fn.Pkg != e.pkg || len(fn.Blocks) == 0 {
 		name := fn.String()
 		var recv Val
@@ -151,7 +191,7 @@ func (r *Run) callFunction(st *State, fr *Frame, fn *ssa.Function, binds []Val, 
 	}
 	name := e.fnName[fn]
 	blk := e.cs.Funcs[name]
-	isClosure := fn.Parent() != nil
+	isClosure := fn.Parent() != nil && !strings.HasPrefix(name, "var:")
 	useContract := blk != nil && blk.First("inline") == nil && (!isClosure || blk.First("modular") != nil)
 	if useContract {
 		return r.applyContract(st, fr, fn, blk, args, dst, in)
@@ -225,6 +265,31 @@ func (e *Engine) calleeName(cc *ssa.CallCommon) string {
 	return "dynamic"
 }
 
+func sigHasInts(sig *types.Signature) bool {
+	has := func(t types.Type) bool {
+		switch u := t.Underlying().(type) {
+		case *types.Basic:
+			return u.Info()&types.IsInteger != 0
+		case *types.Slice:
+			if b, ok := u.Elem().Underlying().(*types.Basic); ok {
+				return b.Info()&types.IsInteger != 0
+			}
+		}
+		return false
+	}
+	for i := 0; i < sig.Params().Len(); i++ {
+		if has(sig.Params().At(i).Type()) {
+			return true
+		}
+	}
+	for i := 0; i < sig.Results().Len(); i++ {
+		if has(sig.Results().At(i).Type()) {
+			return true
+		}
+	}
+	return false
+}
+
 // contractVars binds parameter names of fn to argument values.
 func (e *Engine) contractVars(fn *ssa.Function, args []Val) map[string]SV {
 	m := map[string]SV{}
@@ -266,6 +331,23 @@ func (r *Run) applyContract(st *State, fr *Frame, fn *ssa.Function, blk *Block, 
 		}
 		c.old = old
 		return c
+	}
+	calleeBV := e.bvFiles[shortFile(e.prog.Fset.Position(fn.Pos()).Filename)]
+	if m := blk.First("mode"); m != nil && len(m.Words) > 0 && m.Words[0] == "bv" {
+		calleeBV = true
+	}
+	if calleeBV != e.bv && !sigHasInts(fn.Signature) {
+		// no integers cross the boundary: evaluate the callee's contract in the callee's representation
+		saved := e.bv
+		e.bv = calleeBV
+		defer func() { e.bv = saved }()
+	} else if calleeBV != e.bv {
+		// integer representation differs between caller and callee: the callee's contract cannot be
+		// evaluated here; the call is an arbitrary value of the result type (caller-side facts go in at-call clauses)
+		e.note("call of %s crosses the int/bv representation boundary: result unconstrained at this call site", callee)
+		e.usedContracts[callee] = true
+		r.setResult(st, fr, dst, r.freshResults(st, fn.Signature, "ret_"+callee))
+		return nil
 	}
 	for _, cl := range blk.All("requires") {
 		x, err := parseSpec(cl.Expr)
